@@ -944,3 +944,40 @@ Definition pool_size (v : option (list N)) : Z :=
   let n := match v with None => 4 | Some s => atoi_unsigned s end in
   let n := if n =? 0 then 1 else n in
   if MAX_THREADPOOL_SIZE <? n then MAX_THREADPOOL_SIZE else n.
+
+(* ================================================================== *)
+(* Part E: room in the submission ring (uv__iou_get_sqe)               *)
+(* ================================================================== *)
+(* linux.c:785-793
+     head = load(iou->sqhead); tail = *iou->sqtail; mask = iou->sqmask;
+     if ((head & mask) == ((tail + 1) & mask)) return NULL;   -- no room: thread pool
+     slot = tail & mask;
+   and uv__iou_submit: *sqtail = tail + 1.  head and tail are free-running
+   32-bit counters; the kernel advances head as it consumes entries. *)
+Record sqring := mkSq { sq_head : Z; sq_tail : Z }.
+
+Definition sq_full (mask : Z) (r : sqring) : bool :=
+  Z.land (sq_head r) mask =? Z.land (wrap32 (sq_tail r + 1)) mask.
+
+(* one submission attempt: the slot granted (None = fall back to the pool) *)
+Definition sq_submit (mask : Z) (r : sqring) : option Z * sqring :=
+  if sq_full mask r then (None, r)
+  else (Some (Z.land (sq_tail r) mask), mkSq (sq_head r) (wrap32 (sq_tail r + 1))).
+
+Definition sq_outstanding (r : sqring) : Z := wrap32 (sq_tail r - sq_head r).
+
+(* the kernel consumes up to n entries *)
+Definition sq_consume (n : Z) (r : sqring) : sqring :=
+  let k := if n <? sq_outstanding r then n else sq_outstanding r in
+  mkSq (wrap32 (sq_head r + k)) (sq_tail r).
+
+Inductive sqop := SqSubmit | SqConsume (n : Z).
+
+Fixpoint sq_run (mask : Z) (ops : list sqop) (r : sqring) : list (option Z) * sqring :=
+  match ops with
+  | [] => ([], r)
+  | SqSubmit :: l =>
+      let '(g, r') := sq_submit mask r in
+      let '(gs, r'') := sq_run mask l r' in (g :: gs, r'')
+  | SqConsume n :: l => sq_run mask l (sq_consume n r)
+  end.
